@@ -13,6 +13,7 @@
   is property C08's topic.
 -/
 import EG.Model.Line
+import EG.Model.Rect
 namespace EG
 namespace Thick
 
@@ -143,6 +144,50 @@ def next (it : ParallelsIterator) :
       some (some ret, it)
 
 end ParallelsIterator
+
+/-! ### `Line::extents` / `styled_bounding_box` (src/primitives/line/mod.rs, styled.rs) -/
+
+/-- The `loop` of `Line::extents` for `StrokeOffset::None`: parallels alternate right, left, ..;
+the last one seen on each side is kept. `fuel` bounds the number of iterations (two parallels
+each); outer `none` = a loop bound was exceeded. -/
+def extentsLoop : Nat → ParallelsIterator → (Pt × ParallelLineType) → (Pt × ParallelLineType) →
+    Option ((Pt × ParallelLineType) × (Pt × ParallelLineType))
+  | 0, _, _, _ => none
+  | fuel + 1, it, left, right =>
+    match it.next with
+    | none => none
+    | some (none, _) => some (left, right)
+    | some (some (b, ty), it) =>
+      let right := (b.point, ty)
+      match it.next with
+      | none => none
+      | some (none, _) => some (left, right)
+      | some (some (b, ty), it) => extentsLoop fuel it (b.point, ty) right
+
+/-- `Line::extents(thickness, StrokeOffset::None)`: the left-most and right-most parallel.
+(The `StrokeOffset::Left/Right` arms, used only by thick polylines / triangles, are not modelled
+here.) -/
+def extents (l : Line) (thickness : Nat) : Option (Line × Line) :=
+  match ParallelsIterator.new l (satAsI32 thickness) .none with
+  | none => none
+  | some it =>
+    let reduce := it.parallelParameters.positionStep.major + it.parallelParameters.positionStep.minor
+    match extentsLoop (2 * thickness + 4) it (l.start, .normal) (l.start, .normal) with
+    | none => none
+    | some (left, right) =>
+      let delta := l.stop - l.start
+      let mk := fun (s : Pt × ParallelLineType) =>
+        (⟨s.1, s.1 + delta - (match s.2 with | .normal => Pt.zero | .extra => reduce)⟩ : Line)
+      some (mk left, mk right)
+
+/-- `StyledDimensions::styled_bounding_box` of a line with stroke width `w`. -/
+def styledBoundingBox (l : Line) (w : Nat) : Option Rect :=
+  match extents l w with
+  | none => none
+  | some (lft, rgt) =>
+    let mn := ((lft.start.componentMin lft.stop).componentMin rgt.start).componentMin rgt.stop
+    let mx := ((lft.start.componentMax lft.stop).componentMax rgt.start).componentMax rgt.stop
+    some (Rect.withCorners mn mx)
 
 /-- `ThickPoints`. -/
 structure ThickPointsIt where
